@@ -11,6 +11,7 @@ import importlib
 import json
 import os
 import sys
+import time
 import traceback
 
 from sfa.model import AnalysisError
@@ -25,8 +26,10 @@ PROPS = [f'C{i:02d}' for i in range(1, 21)]
 def run_property(prop: str, tier: str, repo: str, evidence_dir: str, write_evidence: bool = True,
                  selftest: bool = True) -> int:
     mod = importlib.import_module(f'sfa.props.{prop.lower()}')
+    t0 = time.time()
     prog = Program(repo)
     ctx = Ctx(prog, prop, tier)
+    ctx.t0 = t0
     mod.run(ctx)
     st = None
     if tier == 'thorough' and selftest:
@@ -53,7 +56,10 @@ def main(argv=None) -> int:
         with open(args.replay, encoding='utf-8') as f:
             print(json.dumps(json.load(f), indent=1))
         return 0
-    props = PROPS if args.prop == 'all' else [args.prop.upper()]
+    if args.prop == 'all':
+        props = [p for p in PROPS if os.path.exists(os.path.join(VERIF, 'sfa', 'props', f'{p.lower()}.py'))]
+    else:
+        props = [args.prop.upper()]
     worst = 0
     for p in props:
         if p not in PROPS:
